@@ -11,7 +11,7 @@ from ...code_tools.ast_templater import ast_substitute
 from ...code_tools.cascade_namespace import BuiltinCascadeNamespace, CascadeNamespace
 from ...code_tools.code_builder import CodeBuilder
 from ...code_tools.name_sanitizer import NameSanitizer
-from ...code_tools.utils import get_literal_expr, get_literal_from_factory
+from ...code_tools.utils import get_literal_expr, get_literal_from_factory, is_plain_identifier
 from ...model_tools.definitions import DescriptorAccessor, ItemAccessor
 from ...special_cases_optimization import as_is_stub, as_is_stub_with_ctx
 from .definitions import (
@@ -151,7 +151,12 @@ class BuiltinBroachingCodeGenerator(BroachingCodeGenerator):
                 args.append(sub_ast)
             elif isinstance(arg, KeywordArg):
                 sub_ast = self._gen_plan_element_dispatch(state, arg.element)
-                keywords.append(ast.keyword(arg=arg.key, value=sub_ast))  # type: ignore[call-overload]
+                if is_plain_identifier(arg.key):
+                    keywords.append(ast.keyword(arg=arg.key, value=sub_ast))  # type: ignore[call-overload]
+                else:
+                    keywords.append(
+                        ast.keyword(value=ast.Dict(keys=[ast.Constant(arg.key)], values=[sub_ast])),  # type: ignore[call-overload]
+                    )
             elif isinstance(arg, UnpackMapping):
                 sub_ast = self._gen_plan_element_dispatch(state, arg.element)
                 keywords.append(ast.keyword(value=sub_ast))  # type: ignore[call-overload]
@@ -170,7 +175,7 @@ class BuiltinBroachingCodeGenerator(BroachingCodeGenerator):
     def _gen_accessor_element(self, state: GenState, element: AccessorElement[BroachingPlan]) -> AST:
         target_expr = self._gen_plan_element_dispatch(state, element.target)
         if isinstance(element.accessor, DescriptorAccessor):
-            if element.accessor.attr_name.isidentifier():
+            if is_plain_identifier(element.accessor.attr_name):
                 return ast_substitute(
                     f"__target_expr__.{element.accessor.attr_name}",
                     target_expr=target_expr,
